@@ -4,9 +4,11 @@ import (
 	"encoding/json"
 	"flag"
 	"fmt"
+	"go/token"
 	"os"
 	"os/exec"
 	"path/filepath"
+	"regexp"
 	"runtime"
 	"runtime/debug"
 	"sort"
@@ -74,10 +76,86 @@ func analyse(p *Prop, repo, tier string, overlay map[string][]byte) (res runResu
 		}()
 		p.Run(c)
 	}()
+	// Instances confirmed on the pinned tree are the reference for later
+	// changes: a rule instance that is no longer generated at all (its anchor
+	// or its only site disappeared) would otherwise pass vacuously.
+	if res.Err == "" && !writingBaseline {
+		have := map[string]bool{}
+		for _, o := range c.Obs {
+			have[baseKey(o.Key)] = true
+		}
+		for _, k := range loadBaseline(p.ID) {
+			if !have[k] {
+				c.Rule("BASELINE")
+				c.Undecided("missing/"+k, token.NoPos, "this rule instance was generated and confirmed on the pinned tree but is no longer generated: its anchor or its only site disappeared, so the rule would pass vacuously; re-confirm the instance (tools: gethsa -baseline) after reading the change")
+			}
+		}
+	}
 	res.Obs = c.sortedObs()
 	res.Funcs = len(c.Funcs)
 	res.Sites = c.Sites
 	return
+}
+
+var writingBaseline bool
+
+var closureIdx = regexp.MustCompile(`\$\d+`)
+
+// baseKey strips the ordinal and the numbering of anonymous functions (which
+// shifts when an unrelated closure is added earlier in the same function).
+func baseKey(k string) string {
+	if i := strings.LastIndex(k, "#"); i >= 0 {
+		k = k[:i]
+	}
+	return closureIdx.ReplaceAllString(k, "$$")
+}
+
+func baselinePath(id string) string { return filepath.Join(verifDir(), "baseline", id+".keys") }
+
+func loadBaseline(id string) []string {
+	b, err := os.ReadFile(baselinePath(id))
+	if err != nil {
+		return nil
+	}
+	var out []string
+	for _, l := range strings.Split(string(b), "\n") {
+		if l = strings.TrimSpace(l); l != "" && !strings.HasPrefix(l, "//") {
+			out = append(out, l)
+		}
+	}
+	return out
+}
+
+// writeBaseline records the distinct rule instances generated on the current
+// tree (only when every one of them is decided).
+func writeBaseline(p *Prop, repo string) int {
+	writingBaseline = true
+	res := analyse(p, repo, "quick", nil)
+	if res.Err != "" {
+		fmt.Fprintln(os.Stderr, res.Err)
+		return 2
+	}
+	set := map[string]bool{}
+	for _, o := range res.Obs {
+		if o.st == Violated || o.st == Undecided {
+			fmt.Fprintf(os.Stderr, "%s: not writing a baseline from a tree with failing obligation %s\n", p.ID, o.Key)
+			return 2
+		}
+		set[baseKey(o.Key)] = true
+	}
+	var keys []string
+	for k := range set {
+		keys = append(keys, k)
+	}
+	sort.Strings(keys)
+	os.MkdirAll(filepath.Dir(baselinePath(p.ID)), 0o755)
+	hdr := "// rule instances generated and confirmed on the pinned tree for " + p.ID + "; one per line.\n// A run on which one of them is no longer generated is UNDECIDED (never silently passes).\n"
+	if err := os.WriteFile(baselinePath(p.ID), []byte(hdr+strings.Join(keys, "\n")+"\n"), 0o644); err != nil {
+		fmt.Fprintln(os.Stderr, err)
+		return 2
+	}
+	fmt.Printf("%s baseline: %d rule instances\n", p.ID, len(keys))
+	return 0
 }
 
 func verifDir() string {
@@ -197,6 +275,7 @@ func main() {
 	oneMutant := flag.String("mutant", "", "run one mutant (json on stdin index) — internal")
 	list := flag.Bool("list", false, "list registered properties")
 	manifest := flag.String("manifest", "", "write MANIFEST.json to this path")
+	baseline := flag.Bool("baseline", false, "with -prop: record the rule instances generated on the current tree in baseline/<id>.keys")
 	flag.Parse()
 
 	if *manifest != "" {
@@ -226,6 +305,9 @@ func main() {
 	if p == nil {
 		fmt.Fprintf(os.Stderr, "unknown property %q\n", *prop)
 		os.Exit(2)
+	}
+	if *baseline {
+		os.Exit(writeBaseline(p, *repo))
 	}
 	if *oneMutant != "" {
 		idx, _ := strconv.Atoi(*oneMutant)
